@@ -33,15 +33,23 @@ theorem stream_length_cons (p : Bytes) (qs : List Bytes) :
     (stream (p :: qs)).length = 4 + p.length + (stream qs).length := by
   rw [stream_cons]; simp [be32_length]; omega
 
+theorem WF_len {ps : List Bytes} (h : WF ps) : WFlen ps := fun p hp => (h p hp).2
+
 theorem WF_cons {p : Bytes} {qs : List Bytes} (h : WF (p :: qs)) :
     p ≠ [] ∧ p.length < 2 ^ 32 ∧ WF qs := by
   refine ⟨(h p (by simp)).1, (h p (by simp)).2, ?_⟩
   intro q hq
   exact h q (by simp [hq])
 
-theorem WF_append_right {a b : List Bytes} (h : WF (a ++ b)) : WF b := by
-  intro q hq
-  exact h q (by simp [hq])
+theorem WFlen_cons {p : Bytes} {qs : List Bytes} (h : WFlen (p :: qs)) :
+    p.length < 2 ^ 32 ∧ WFlen qs :=
+  ⟨h p (by simp), fun q hq => h q (by simp [hq])⟩
+
+theorem WFlen_append_right {a b : List Bytes} (h : WFlen (a ++ b)) : WFlen b :=
+  fun q hq => h q (by simp [hq])
+
+theorem WFlen_append_left {a b : List Bytes} (h : WFlen (a ++ b)) : WFlen a :=
+  fun q hq => h q (by simp [hq])
 
 /-- a stream shorter than 4 bytes carries no frame at all -/
 theorem stream_short {qs : List Bytes} (h : (stream qs).length < 4) : qs = [] := by
@@ -142,7 +150,7 @@ theorem body_fill_more {n : Nat} {b block : Bytes} (h : b.length + block.length 
 /-! ### the loop invariant -/
 
 theorem loop_spec : ∀ (fuel : Nat) (st : St) (block r : Bytes) (qs : List Bytes),
-    WF qs → Rel st (block ++ r) qs → block.length ≤ fuel →
+    WFlen qs → Rel st (block ++ r) qs → block.length ≤ fuel →
     ∃ st' out qs', loop fuel st block = .ok (st', out) ∧ qs = out ++ qs' ∧ Rel st' r qs' := by
   intro fuel
   induction fuel with
@@ -175,7 +183,7 @@ theorem loop_spec : ∀ (fuel : Nat) (st : St) (block r : Bytes) (qs : List Byte
           simp only [List.length_append, List.length_nil] at this
           omega
         obtain ⟨p, qs', rfl⟩ := List.exists_cons_of_ne_nil hqs
-        obtain ⟨hpne, hp32, hwf'⟩ := WF_cons hwf
+        obtain ⟨hp32, hwf'⟩ := WFlen_cons hwf
         rw [stream_cons] at hstream
         obtain ⟨hs1, hs2⟩ := prefix_split hstream (by omega) h4
         rw [readPrefix_full hpl h4 hp32 hs1]
@@ -209,8 +217,8 @@ theorem loop_spec : ∀ (fuel : Nat) (st : St) (block r : Bytes) (qs : List Byte
           refine ⟨st', _ :: out, qs'', rfl, ?_, hr⟩
           rw [ht, hq]; simp
     | buffering p b _ qs' hb hstream =>
-      obtain ⟨hpne, hp32, hwf'⟩ := WF_cons hwf
-      rw [readPrefix_known (by simp; omega)]
+      obtain ⟨hp32, hwf'⟩ := WFlen_cons hwf
+      rw [readPrefix_known (by show p.length ≠ 0; omega)]
       simp only []
       by_cases hdone : p.length - b.length ≤ block.length
       · -- the buffer is completed by this chunk
@@ -240,13 +248,13 @@ theorem loop_spec : ∀ (fuel : Nat) (st : St) (block r : Bytes) (qs : List Byte
 
 /-! ### chunks -/
 
-theorem feed_spec {st : St} {chunk r : Bytes} {qs : List Bytes} (hwf : WF qs)
+theorem feed_spec {st : St} {chunk r : Bytes} {qs : List Bytes} (hwf : WFlen qs)
     (h : Rel st (chunk ++ r) qs) :
     ∃ st' out qs', feed st chunk = .ok (st', out) ∧ qs = out ++ qs' ∧ Rel st' r qs' :=
   loop_spec chunk.length st chunk r qs hwf h (Nat.le_refl _)
 
 theorem feedAll_spec : ∀ (cs : List Bytes) (st : St) (acc : List Bytes) (r : Bytes) (qs : List Bytes),
-    WF qs → Rel st (cs.flatten ++ r) qs →
+    WFlen qs → Rel st (cs.flatten ++ r) qs →
     ∃ st' out qs', feedAll st acc cs = .ok (acc ++ out, st') ∧ qs = out ++ qs' ∧ Rel st' r qs' := by
   intro cs
   induction cs with
@@ -257,13 +265,13 @@ theorem feedAll_spec : ∀ (cs : List Bytes) (st : St) (acc : List Bytes) (r : B
     intro st acc r qs hwf h
     have h' : Rel st (c ++ (cs.flatten ++ r)) qs := by simpa using h
     obtain ⟨st1, out1, qs1, hf, hq, hr⟩ := feed_spec hwf h'
-    have hwf1 : WF qs1 := WF_append_right (hq ▸ hwf)
+    have hwf1 : WFlen qs1 := WFlen_append_right (hq ▸ hwf)
     obtain ⟨st2, out2, qs2, hf2, hq2, hr2⟩ := ih st1 (acc ++ out1) r qs1 hwf1 hr
     refine ⟨st2, out1 ++ out2, qs2, ?_, ?_, hr2⟩
     · simp [feedAll, hf, hf2]
     · rw [hq, hq2]; simp
 
-theorem decompress_spec {cs : List Bytes} {r : Bytes} {ps : List Bytes} (hwf : WF ps)
+theorem decompress_spec {cs : List Bytes} {r : Bytes} {ps : List Bytes} (hwf : WFlen ps)
     (h : cs.flatten ++ r = stream ps) :
     ∃ st out qs, decompress cs = .ok (out, st) ∧ ps = out ++ qs ∧ Rel st r qs := by
   obtain ⟨st, out, qs, hf, hq, hr⟩ := feedAll_spec cs St.init [] r ps hwf (h ▸ Rel_init ps)
@@ -284,16 +292,16 @@ theorem Rel_end {st : St} {qs : List Bytes} (h : Rel st [] qs) : qs = [] ∧ st.
     omega
 
 /-- the bytes the state holds are exactly the consumed part of the frame in progress -/
-theorem Rel_pending {st : St} {r : Bytes} {qs : List Bytes} (hwf : WF qs) (h : Rel st r qs) :
+theorem Rel_pending {st : St} {r : Bytes} {qs : List Bytes} (hwf : WFlen qs) (h : Rel st r qs) :
     st.pending ++ r = stream qs ∧ st.Shaped := by
   cases h with
   | idle pl _ _ pos hpl hs => exact ⟨hs, rfl, hpl⟩
   | buffering p b _ qs' hb hs =>
-    obtain ⟨_, hp32, _⟩ := WF_cons hwf
+    obtain ⟨hp32, _⟩ := WFlen_cons hwf
     refine ⟨?_, ?_⟩
     · simp only [St.pending, stream_cons, List.append_assoc]
       rw [hs]
-    · exact ⟨by simp; omega, hp32, rfl, rfl, hb⟩
+    · exact ⟨by show p.length ≠ 0; omega, hp32, rfl, rfl, hb⟩
 
 theorem Rel_owed {st : St} {r : Bytes} {qs : List Bytes} (h : Rel st r qs) (hr : r ≠ []) : qs ≠ [] := by
   cases h with
@@ -304,6 +312,242 @@ theorem Rel_owed {st : St} {r : Bytes} {qs : List Bytes} (h : Rel st r qs) (hr :
     simp at hs
     exact hr hs.2
   | buffering p b _ qs' hb hs => simp
+
+/-! ### `_pos` is dead while there is no buffer; the buffer is invisible to the prefix part -/
+
+/-- put a buffer and a position back into the outcome of the prefix part -/
+def Pre.withBP (buf : Option Bytes) (pos : Nat) : Pre → Pre
+  | .brk s => .brk { s with buffer := buf, pos := pos }
+  | .go s b => .go { s with buffer := buf, pos := pos } b
+
+/-- the prefix part neither reads nor writes `_buffer` and `_pos` -/
+theorem readPrefix_frame (sz : Nat) (pl : Bytes) (buf : Option Bytes) (pos : Nat) (blk : Bytes) :
+    readPrefix ⟨sz, pl, buf, pos⟩ blk =
+      match readPrefix ⟨sz, pl, none, 0⟩ blk with
+      | .error e => .error e
+      | .ok p => .ok (p.withBP buf pos) := by
+  unfold readPrefix
+  simp only []
+  split
+  · rfl
+  · split
+    · rfl
+    · split
+      · split <;> rfl
+      · split <;> rfl
+
+theorem St.Eqv.refl (a : St) : a.Eqv a := ⟨rfl, rfl, rfl, fun _ => rfl⟩
+
+theorem St.Eqv.symm {a b : St} (h : a.Eqv b) : b.Eqv a :=
+  ⟨h.1.symm, h.2.1.symm, h.2.2.1.symm, fun hb => (h.2.2.2 (by rw [h.2.2.1]; exact hb)).symm⟩
+
+theorem St.Eqv.trans {a b c : St} (h₁ : a.Eqv b) (h₂ : b.Eqv c) : a.Eqv c :=
+  ⟨h₁.1.trans h₂.1, h₁.2.1.trans h₂.2.1, h₁.2.2.1.trans h₂.2.2.1,
+    fun ha => (h₁.2.2.2 ha).trans (h₂.2.2.2 (by rw [← h₁.2.2.1]; exact ha))⟩
+
+theorem Idle_iff_Eqv_init (st : St) : st.Idle ↔ st.Eqv St.init := by
+  constructor
+  · intro ⟨h1, h2, h3⟩
+    exact ⟨h1, h2, h3, fun h => absurd h3 h⟩
+  · intro ⟨h1, h2, h3, _⟩
+    exact ⟨h1, h2, h3⟩
+
+/-- results that agree up to a dead `_pos` -/
+def ResEqv : Except Err (St × List Bytes) → Except Err (St × List Bytes) → Prop
+  | .ok (s, o), .ok (s', o') => s.Eqv s' ∧ o = o'
+  | .error e, .error e' => e = e'
+  | _, _ => False
+
+theorem body_eqv (sz : Nat) (pl : Bytes) (buf : Option Bytes) (pa pb : Nat) (blk : Bytes)
+    (h : buf ≠ none → pa = pb) :
+    (body ⟨sz, pl, buf, pa⟩ blk).1.Eqv (body ⟨sz, pl, buf, pb⟩ blk).1 ∧
+      (body ⟨sz, pl, buf, pa⟩ blk).2 = (body ⟨sz, pl, buf, pb⟩ blk).2 := by
+  cases buf with
+  | some b =>
+    have := h (by simp)
+    subst this
+    exact ⟨St.Eqv.refl _, rfl⟩
+  | none =>
+    unfold body
+    simp only [Option.isSome_none, Bool.false_eq_true, or_false]
+    split
+    · split
+      · exact ⟨St.Eqv.refl _, rfl⟩
+      · exact ⟨St.Eqv.refl _, rfl⟩
+    · exact ⟨⟨rfl, rfl, rfl, fun hne => absurd rfl hne⟩, rfl⟩
+
+theorem loop_eqv : ∀ (fuel : Nat) (a b : St) (blk : Bytes), a.Eqv b →
+    ResEqv (loop fuel a blk) (loop fuel b blk) := by
+  intro fuel
+  induction fuel with
+  | zero =>
+    intro a b blk h
+    cases blk with
+    | nil => simp only [loop]; exact ⟨h, rfl⟩
+    | cons c cs => simp only [loop]; rfl
+  | succ fuel ih =>
+    intro a b blk h
+    cases blk with
+    | nil => simp only [loop]; exact ⟨h, rfl⟩
+    | cons c cs =>
+      obtain ⟨sz, pl, buf, pa⟩ := a
+      obtain ⟨sz', pl', buf', pb⟩ := b
+      obtain ⟨h1, h2, h3, h4⟩ := h
+      simp only at h1 h2 h3 h4
+      subst h1 h2 h3
+      rw [loop_succ (by simp), loop_succ (by simp), readPrefix_frame sz pl buf pa,
+        readPrefix_frame sz pl buf pb]
+      cases readPrefix ⟨sz, pl, none, 0⟩ (c :: cs) with
+      | error e => rfl
+      | ok p =>
+        cases p with
+        | brk s => exact ⟨⟨rfl, rfl, rfl, h4⟩, rfl⟩
+        | go s blk' =>
+          simp only [Pre.withBP]
+          obtain ⟨hs, hr⟩ := body_eqv s.size s.partialLen buf pa pb blk' h4
+          have := ih _ _ (body ⟨s.size, s.partialLen, buf, pa⟩ blk').2.1 hs
+          rw [show (body ⟨s.size, s.partialLen, buf, pb⟩ blk').2.1 =
+            (body ⟨s.size, s.partialLen, buf, pa⟩ blk').2.1 by rw [hr]] 
+          rw [show (body ⟨s.size, s.partialLen, buf, pb⟩ blk').2.2 =
+            (body ⟨s.size, s.partialLen, buf, pa⟩ blk').2.2 by rw [hr]]
+          revert this
+          cases loop fuel (body ⟨s.size, s.partialLen, buf, pa⟩ blk').1
+              (body ⟨s.size, s.partialLen, buf, pa⟩ blk').2.1 <;>
+            cases loop fuel (body ⟨s.size, s.partialLen, buf, pb⟩ blk').1
+              (body ⟨s.size, s.partialLen, buf, pa⟩ blk').2.1 <;>
+            simp only [ResEqv] <;> intro hh <;>
+            first
+              | exact hh
+              | exact hh.elim
+              | exact ⟨hh.1, by rw [hh.2]⟩
+
+theorem feedAll_eqv : ∀ (cs : List Bytes) (a b : St) (acc : List Bytes), a.Eqv b →
+    match feedAll a acc cs, feedAll b acc cs with
+    | .ok (o, s), .ok (o', s') => o = o' ∧ s.Eqv s'
+    | .error e, .error e' => e = e'
+    | _, _ => False := by
+  intro cs
+  induction cs with
+  | nil => intro a b acc h; exact ⟨rfl, h⟩
+  | cons c cs ih =>
+    intro a b acc h
+    have := loop_eqv c.length a b c h
+    simp only [feedAll, feed]
+    revert this
+    cases loop c.length a c <;> cases loop c.length b c <;> simp only [ResEqv] <;> intro hh
+    · exact hh
+    · cases hh
+    · cases hh
+    · obtain ⟨he, ho⟩ := hh
+      rw [ho]
+      exact ih _ _ _ he
+
+/-! ### the linear-time machine computes the same thing -/
+
+def PreF.abs : PreF → Pre
+  | .brk s => .brk s.abs
+  | .go s b => .go s.abs b
+
+def absRes : Except Err (StF × List Bytes) → Except Err (St × List Bytes)
+  | .ok (s, o) => .ok (s.abs, o)
+  | .error e => .error e
+
+theorem readPrefixF_abs (st : StF) (blk : Bytes) :
+    (match readPrefixF st blk with
+      | .error e => .error e
+      | .ok p => .ok p.abs) = readPrefix st.abs blk := by
+  obtain ⟨sz, pl, segs, pos⟩ := st
+  simp only [StF.abs]
+  rw [readPrefix_frame sz pl _ pos blk]
+  unfold readPrefixF
+  simp only []
+  cases readPrefix ⟨sz, pl, none, 0⟩ blk with
+  | error e => rfl
+  | ok p => cases p <;> rfl
+
+theorem bodyF_abs (st : StF) (blk : Bytes) :
+    ((bodyF st blk).1.abs, (bodyF st blk).2) = body st.abs blk := by
+  obtain ⟨sz, pl, segs, pos⟩ := st
+  cases segs with
+  | none =>
+    simp only [bodyF, body, StF.abs, Option.map_none, Option.isSome_none, Bool.false_eq_true, or_false]
+    split
+    · split <;> simp <;> omega
+    · rfl
+  | some l =>
+    simp only [bodyF, body, StF.abs, Option.map_some, Option.isSome_some, or_true, if_true]
+    split <;> simp [*]
+
+theorem loopF_abs : ∀ (fuel : Nat) (st : StF) (blk : Bytes),
+    absRes (loopF fuel st blk) = loop fuel st.abs blk := by
+  intro fuel
+  induction fuel with
+  | zero => intro st blk; cases blk <;> rfl
+  | succ fuel ih =>
+    intro st blk
+    cases blk with
+    | nil => rfl
+    | cons c cs =>
+      rw [loop_succ (by simp), ← readPrefixF_abs]
+      simp only [loopF]
+      cases readPrefixF st (c :: cs) with
+      | error e => rfl
+      | ok p =>
+        cases p with
+        | brk s => rfl
+        | go s blk' =>
+          simp only [PreF.abs]
+          have hb := bodyF_abs s blk'
+          have h1 : (body s.abs blk').1 = (bodyF s blk').1.abs := by rw [← hb]
+          have h2 : (body s.abs blk').2 = (bodyF s blk').2 := by rw [← hb]
+          rw [h1, h2, ← ih]
+          cases loopF fuel (bodyF s blk').1 (bodyF s blk').2.1 with
+          | error e => rfl
+          | ok r => rfl
+
+theorem feedAllF_abs : ∀ (cs : List Bytes) (st : StF) (acc : List Bytes),
+    (match feedAllF st acc cs with
+      | .ok (o, s) => .ok (o, s.abs)
+      | .error e => .error e) = feedAll st.abs acc cs := by
+  intro cs
+  induction cs with
+  | nil => intro st acc; rfl
+  | cons c cs ih =>
+    intro st acc
+    have := loopF_abs c.length st c
+    simp only [feedAllF, feedAll, feedF, feed]
+    rw [← this]
+    cases loopF c.length st c with
+    | error e => rfl
+    | ok r =>
+      obtain ⟨s, o⟩ := r
+      simp only [absRes]
+      exact ih s (acc ++ o)
+
+/-! ### malformed input -/
+
+/-- the state never holds a whole frame: what is pending is a proper prefix of the next frame -/
+theorem Rel_pending_short {st : St} {r : Bytes} {x : Bytes} {qs : List Bytes}
+    (h : Rel st r (x :: qs)) : st.pending.length < (frame x).length := by
+  cases h with
+  | idle pl _ _ pos hpl hs =>
+    simp only [St.pending, frame, List.length_append, be32_length]
+    omega
+  | buffering p b _ _ hb hs =>
+    simp only [St.pending, frame, List.length_append, be32_length]
+    omega
+
+/-- every 4-byte string is the prefix of some length below 2^32 -/
+theorem be32_surj (l : Bytes) (h : l.length = 4) : ∃ n, n < 2 ^ 32 ∧ be32 n = l := by
+  match l, h with
+  | [a, b, c, d], _ =>
+    have ha := a.toNat_lt
+    have hb := b.toNat_lt
+    have hc := c.toNat_lt
+    have hd := d.toNat_lt
+    refine ⟨a.toNat * 2 ^ 24 + b.toNat * 2 ^ 16 + c.toNat * 2 ^ 8 + d.toNat, by omega, ?_⟩
+    simp only [be32, List.cons.injEq, and_true]
+    refine ⟨?_, ?_, ?_, ?_⟩ <;> apply UInt8.toNat_inj.mp <;> rw [UInt8.toNat_ofNat'] <;> omega
 
 /-! ### output -/
 
